@@ -239,7 +239,7 @@ class SharedChord(Stream):
     everything Note.__eq__ looks at but differ in accidental, or differ in one field only - gives what a fresh chord gives for each"""
     name = "to_pitch_shared_chord"
     checker = None
-    pair = "property oracle: [c.to_pitch(n) for n in notes] on one Chord object vs a fresh Chord per note vs the documented pitch"
+    pair = "property oracle: [c.to_pitch(n) for n in notes] on one Chord object - also after transpose / copy / o / % / invert / voice leading from and towards it - vs a fresh Chord per note vs the documented pitch"
     quick, thorough = 800, 15000
 
     def gen(self, rng, n):
@@ -266,6 +266,14 @@ class SharedChord(Stream):
             case = {"chord": c, "notes": notes}
             if rng.random() < 0.3:
                 case["shared_key"] = rng.choice([1, -1, 2])
+            if rng.random() < 0.4:
+                # public operations performed ON the chord (results thrown away) before its pitches are asked: none of them may move it
+                case["pre"] = [rng.choice([["transpose", rng.choice([1, 2, 3, 5, 7, -2, 12])], ["copy"], ["o", rng.choice([1, -1])],
+                                           ["mod", rng.randrange(12), rng.choice(["M", "m"]), rng.choice([0, 0, 1])], ["invert", rng.choice([1, 2, -1])],
+                                           ["pars_target", rng.randrange(7), rng.choice(["", "6", "7"]), rng.choice([None, "up", "down"])],
+                                           ["pars_source", rng.randrange(7), rng.choice(["", "64", "65"]), rng.choice([None, "up", "down"])],
+                                           ["read", rng.choice(["scale_pitches", "chord_pitches", "chromatic_scale_pitches", "chord_extension_pitches"])]])
+                               for _ in range(rng.randrange(1, 4))]
             yield case
 
     def impl(self, case):
@@ -281,6 +289,19 @@ class SharedChord(Stream):
                 shared = Chord(element=c["elem"], extension=mlang.ext_string(c["fig"], c.get("repl", ()), c.get("adds", ()), c.get("rems", ())),
                                octave=c["coct"]) % key
                 _ = mlang.guarded(lambda: other.to_pitch(mlang.mk_note(case["notes"][0])))
+            for op in case.get("pre", []):
+                from musiclang import Chord, Tonality
+                def run(op=op):
+                    if op[0] == "transpose": return shared.transpose(op[1])
+                    if op[0] == "copy": return shared.copy()
+                    if op[0] == "o": return shared.o(op[1])
+                    if op[0] == "mod": return shared % Tonality(op[1], op[2], op[3])
+                    if op[0] == "invert": return shared.invert(op[1])
+                    if op[0] == "read": return getattr(shared, op[1])
+                    other = Chord(element=op[1], extension=op[2], tonality=Tonality(5, "M", 0))
+                    if op[0] == "pars_target": return other.get_parsimonious_voice_leading(shared, direction=op[3])
+                    return shared.get_parsimonious_voice_leading(other, direction=op[3])
+                mlang.guarded(run)
             got, fresh = [], []
             for n in case["notes"]:
                 for lst, ch in ((got, shared), (fresh, mlang.mk_chord(case["chord"]))):
@@ -300,10 +321,16 @@ class SharedChord(Stream):
         return None
 
     def nontrivial(self, case, r):
-        return len({(n["kind"], n["val"], n["oct"], n.get("mode")) for n in case["notes"]}) < len(case["notes"])
+        return len({(n["kind"], n["val"], n["oct"], n.get("mode")) for n in case["notes"]}) < len(case["notes"]) or bool(case.get("pre"))
+
+    def hist_keys(self, case, r):
+        return ["after:" + op[0] for op in case.get("pre", [])] or ["no-earlier-operation"]
 
     def shrink(self, case):
         ns = case["notes"]
+        pre = case.get("pre", [])
+        for i in range(len(pre)):
+            yield dict(case, pre=pre[:i] + pre[i + 1:])
         if len(ns) > 2:
             for i in range(len(ns)):
                 yield dict(case, notes=ns[:i] + ns[i + 1:])
